@@ -426,7 +426,7 @@ PROPS = {
         "kani": [],
         "obligations_extra": V11_CODE,
         "glue": V11_TRUST + ["emission of the locals vector in Module::encode_internal (one loop over body.locals)",
-                 "the ModuleIterator / ComponentIterator add_local forwarders are under contract in V4b (the local is added to the function the cursor is in - of the module the cursor is in - with the index params + locals so far and the requested type; every other function / module and the cursor untouched; the function keeps id, type, recorded size, function-level code, deleted flag; a consistent ModuleIterator stays consistent with its module) against the contract of Functions::add_local, which V1 proves and V4b assumes with the same text; precondition: the iterator points at an instruction of a local function whose run-length local list agrees with its num_locals"],
+                 "the ModuleIterator / ComponentIterator add_local forwarders are under contract in V4b (the local is added to the function the cursor is in - of the module the cursor is in - with the index params + locals so far and the requested type; every other function / module and the cursor untouched; the function keeps id, type, recorded size, function-level code, deleted flag; a consistent ModuleIterator / ComponentIterator stays consistent with its module / component) against the contract of Functions::add_local, which V1 proves and V4b assumes with the same text; precondition: the iterator points at an instruction of a local function whose run-length local list agrees with its num_locals"],
         "design_ref": "DESIGN.md §4 V1, §5 C14",
     },
     "C27": {
